@@ -846,17 +846,34 @@ def check_c17(pid, tier, replay=None):
     gns = m.group(1) if m else "IsalVerif.GenProps.SelfTest"
     thms = C17_THMS + [gns + "." + t for t in C17_GEN]
     lean_failed = vlib.lean_obligations(chk, "IsalVerif.GenProps.SelfTestRet", thms, extra_targets=["IsalVerif.Props.C17"])
+    # the portable gate fips/self_tests_generic.c (C11 atomics; non-x86 targets and arch=noarch builds): second abstract
+    # protocol + the same simulation check over gcc's x86-64 code of the `FIPS_MODE=y arch=noarch` build
+    import gen_selftest_generic
+    gen_selftest_generic.main(["--quiet"])
+    g_thms = ["IsalVerif.SelfTestGeneric." + t for t in (
+        "C17_generic_once", "C17_generic_no_early_return", "C17_generic_success_means_passed", "C17_generic_agree",
+        "C17_generic_verdict_stable", "C17_generic_live", "C17_generic_live_strong", "C17_generic_final",
+        "C17_generic_machine", "C17_generic_machine_live", "C17_generic_cfg_hypothesis_necessary",
+        "exchange_rejected", "C17_generic_cas_necessary")]
+    g_gen = ["IsalVerif.GenProps.SelfTestGeneric." + t for t in (
+        "sim_ok", "closed_world_ok", "return_table_consistent", "return_values_ok", "fast_path_ok",
+        "C17_generic_generated", "C17_generic_generated_live")]
+    lean_failed += vlib.lean_obligations(chk, "IsalVerif.GenProps.SelfTestGeneric", g_thms + g_gen, extra_targets=["IsalVerif.Props.C17Generic"])
     drv = vlib.harness_bin("drv_fips", "fips", libs=(), cflags=C17_WRAPS)
+    drvg = vlib.harness_bin("drv_fips", "fipsnoarch", libs=(),
+                            cflags=("-DVERIF_GENERIC_GATE", "-Wl,--wrap=_aes_self_tests", "-Wl,--wrap=_sha_self_tests",
+                                    "-Wl,--wrap=_sha256_ctx_mgr_submit", "-Wl,--wrap=_sha256_ctx_mgr_flush"))
     rounds = 12 if tier == "quick" else 150
-    jobs = [(n, mode, rounds, chk.seed) for n in (1, 2, 8, 64) for mode in ("pass", "aesfail", "shafail")]
+    jobs = [(n, mode, rounds, chk.seed, "x86") for n in (1, 2, 8, 64) for mode in ("pass", "aesfail", "shafail")]
+    jobs += [(n, mode, rounds, chk.seed, "generic") for n in (1, 2, 8, 64) for mode in ("pass", "aesfail", "shafail")]
     if replay:
         rp = json.load(open(replay))
         a = rp["args"]
-        jobs = [(int(a[0]), a[1], int(a[2]), int(a[3]))]
+        jobs = [(int(a[0]), a[1], int(a[2]), int(a[3]), a[4] if len(a) > 4 else "x86")]
 
     def run(job):
-        n, mode, rnds, sd = job
-        r = subprocess.run([drv, str(n), mode, str(rnds), str(sd)], capture_output=True, text=True, timeout=3600)
+        n, mode, rnds, sd, gate = job
+        r = subprocess.run([drvg if gate == "generic" else drv, str(n), mode, str(rnds), str(sd)], capture_output=True, text=True, timeout=3600)
         lines = [l for l in r.stdout.split("\n") if l]
         return job, r.returncode, [l for l in lines if l.startswith("MONITOR")], [l for l in lines if l.startswith("round=")]
 
@@ -865,17 +882,17 @@ def check_c17(pid, tier, replay=None):
     found = False
     nround = 0
     hist = {}
-    for (n, mode, rnds, sd), rc, mons, rlines in res:
+    for (n, mode, rnds, sd, gate), rc, mons, rlines in res:
         nround += len(rlines)
-        hist["%s/n=%d" % (mode, n)] = len(rlines)
+        hist["%s/%s/n=%d" % (gate, mode, n)] = len(rlines)
         ok = rc == 0 and not mons and len(rlines) == rnds
-        chk.oblige("stress correspondence drv_fips n=%d mode=%s rounds=%d" % (n, mode, rnds), ok, "exit=%d monitors=%d" % (rc, len(mons)))
+        chk.oblige("stress correspondence drv_fips gate=%s n=%d mode=%s rounds=%d" % (gate, n, mode, rnds), ok, "exit=%d monitors=%d" % (rc, len(mons)))
         if not ok:
             found = True
             kind = mons[0].split()[1] if mons else "harness-exit-%d" % rc
             # shrink the number of rounds (rounds are independent processes, seed-deterministic delays)
-            chk.violation("%s with %d threads, mode %s" % (kind, n, mode),
-                          {"kind": "history", "args": [str(n), mode, str(rnds), str(sd)], "monitor": mons[:4],
+            chk.violation("%s with %d threads, mode %s (%s gate)" % (kind, n, mode, gate),
+                          {"kind": "history", "args": [str(n), mode, str(rnds), str(sd), gate], "monitor": mons[:4],
                            "rounds": rlines[:3], "broken_obligations": [f[0] for f in lean_failed],
                            "note": "drv_fips <threads> <mode> <rounds> <seed>: concurrent first calls into the FIPS build; "
                                    "mode shafail makes the real SHA self test fail with its own failure value"},
@@ -899,7 +916,7 @@ def check_c17(pid, tier, replay=None):
                    "memory model: sequential consistency for the single status word (x86-TSO is coherent per location; lock cmpxchg is a full barrier)",
                    "the self-test functions are opaque (enter/return with a value from the extracted set); rbx preserved across them (C19)"]
     chk.assumptions = ["fair scheduler (every unfinished thread is eventually scheduled) for the liveness clauses",
-                       "self_tests_generic.c (non-x86) is not covered"]
+                       "the portable gate self_tests_generic.c is checked on gcc's x86-64 code of the arch=noarch build plus the source fact 'only seq_cst orders, status declared atomic' (other targets' compilers are outside)"]
     return chk.finish(level="proof", rule="N in {1,2,8,64} threads x {tests pass, AES self test fails, SHA self test fails} x rounds; "
                       "every round a fresh process: barrier-released first calls into random approved entry points, then later calls with and without the fault")
 
